@@ -446,7 +446,14 @@ func replay(beh []mbt.Step, bi int) {
 			}
 		}
 		atomic.AddInt64(&counters.reads, 1)
-		field, detail := compareBA(res, ex, true)
+		skipNilBytes := false
+		cmp := func(b *bitarray.BitArray) (string, string) { return compareBA(b, ex, true, skipNilBytes) }
+		field, detail := cmp(res)
+		if field == "bytes-panic-nil" {
+			rep("C48:Bytes:panic:nil-receiver", detail)
+			skipNilBytes = true
+			field, detail = cmp(res) // the remaining reads of the nil array
+		}
 		if field != "" {
 			cause := ""
 			// (1) an operand carried bits beyond its size: clear them and redo the operation
@@ -458,35 +465,28 @@ func replay(beh []mbt.Step, bi int) {
 				sanitise(x)
 				sanitise(y)
 				if act == "Update" {
-					x = build(e.want[xa].bits, false)
+					x = build(e.want[xa].bits, e.want[xa].isNil)
 					e.regs[xa] = x
 				}
 				res = do()
-				if f2, _ := compareBA(res, ex, true); f2 == "" {
+				if f2, d2 := cmp(res); f2 == "" {
 					cause = org
 				} else {
-					field, detail = compareBA(res, ex, true)
+					field, detail = f2, d2
 				}
 			}
 			// (2) the operation itself wrote bits beyond the size of its result
 			if cause == "" && dirty(res) {
 				sanitise(res)
-				if f3, _ := compareBA(res, ex, true); f3 == "" {
+				if f3, d3 := cmp(res); f3 == "" {
 					cause = act
 				} else {
-					field, detail = compareBA(res, ex, true)
+					field, detail = f3, d3
 				}
 			}
-			switch {
-			case cause != "":
+			if cause != "" {
 				rep("C48:"+cause+":writes-padding-bits", fmt.Sprintf("%s (bits beyond the array's size were written by %s and are read by other operations)", detail, cause))
-			case field == "bytes-panic-nil":
-				rep("C48:Bytes:panic:nil-receiver", detail)
-				if f4, d4 := compareBA(res, ex, true, true); f4 != "" { // the remaining reads of the nil array
-					rep("C48:"+act+":"+f4, d4)
-					res = build(ex.bits, ex.isNil)
-				}
-			default:
+			} else {
 				k := "C48:" + act + ":" + field
 				if act == "Or" || act == "And" || act == "Sub" {
 					k += ":" + shapeTag(x, y)
